@@ -348,6 +348,9 @@ func (c *otApplyContext) applyGPOSPair2(inner tables.PairPosData2) bool {
 func (c *otApplyContext) applyGPOSCursive(data tables.CursivePos, covIndex int) bool {
 	buffer := c.buffer
 
+	if covIndex >= len(data.EntryExits) { // covIndex is not sanitized in tables.Parse
+		return false
+	}
 	thisRecord := data.EntryExits[covIndex]
 	if thisRecord.EntryAnchor == nil {
 		return false
@@ -361,7 +364,7 @@ func (c *otApplyContext) applyGPOSCursive(data tables.CursivePos, covIndex int) 
 	}
 
 	prevIndex, ok := data.Cov().Index(gID(buffer.Info[skippyIter.idx].Glyph))
-	if !ok {
+	if !ok || prevIndex >= len(data.EntryExits) {
 		buffer.unsafeToConcatFromOutbuffer(skippyIter.idx, buffer.idx+1)
 		return false
 	}
@@ -501,6 +504,9 @@ func (c *otApplyContext) getAnchor(anchor tables.Anchor, glyph GID) (x, y float3
 
 func (c *otApplyContext) applyGPOSMarks(marks tables.MarkArray, markIndex, glyphIndex int, anchors tables.AnchorMatrix, glyphPos int) bool {
 	buffer := c.buffer
+	if markIndex >= len(marks.MarkRecords) || markIndex >= len(marks.MarkAnchors) { // markIndex is not sanitized for MarkMarkPos
+		return false
+	}
 	markClass := marks.MarkRecords[markIndex].MarkClass
 	markAnchor := marks.MarkAnchors[markIndex]
 
